@@ -68,23 +68,23 @@ def shapeF (sh : String) (a : Array Arg) (k : Nat) : Option GenF.SetArgs :=
 
 def opNames : List String := ["eq", "ne", "lt", "le", "gt", "ge", "add", "radd", "iadd", "sub", "isub"]
 
-def cmpQ (op : String) (e : GenQ.Epoch) (b : GenQ.Operand) : Option (PyRes Bool) :=
+def cmpQ (op : String) (e : GenQ.Epoch) (b : GenQ.EpOperand) : Option (PyRes Bool) :=
   match op with
   | "eq" => some (e.eq b) | "ne" => some (e.ne b) | "lt" => some (e.lt b)
   | "le" => some (e.le b) | "gt" => some (e.gt b) | "ge" => some (e.ge b)
   | _ => none
-def cmpF (op : String) (e : GenF.Epoch) (b : GenF.Operand) : Option (PyRes Bool) :=
+def cmpF (op : String) (e : GenF.Epoch) (b : GenF.EpOperand) : Option (PyRes Bool) :=
   match op with
   | "eq" => some (e.eq b) | "ne" => some (e.ne b) | "lt" => some (e.lt b)
   | "le" => some (e.le b) | "gt" => some (e.gt b) | "ge" => some (e.ge b)
   | _ => none
 
-def arithQ (op : String) (e : GenQ.Epoch) (b : GenQ.Operand) : Option String :=
+def arithQ (op : String) (e : GenQ.Epoch) (b : GenQ.EpOperand) : Option String :=
   match op with
   | "add" => some (out (e.add b)) | "radd" => some (out (e.radd b)) | "iadd" => some (out (e.iadd b))
   | "sub" => some (out (e.sub b)) | "isub" => some (out (e.isub b))
   | _ => none
-def arithF (op : String) (e : GenF.Epoch) (b : GenF.Operand) : Option String :=
+def arithF (op : String) (e : GenF.Epoch) (b : GenF.EpOperand) : Option String :=
   match op with
   | "add" => some (out (e.add b)) | "radd" => some (out (e.radd b)) | "iadd" => some (out (e.iadd b))
   | "sub" => some (out (e.sub b)) | "isub" => some (out (e.isub b))
